@@ -153,9 +153,16 @@ pub fn interpret(data: &Rcvar, node: &Ast, ctx: &mut Context<'_>) -> SearchResul
                 fn_args.push(interpret(data, arg, ctx)?);
             }
             // Reset the offset so that it points to the function being evaluated.
+            let caller_offset = ctx.offset;
             ctx.offset = offset;
             match ctx.runtime.get_function(name) {
-                Some(f) => f.evaluate(&fn_args, ctx),
+                Some(f) => {
+                    let result = f.evaluate(&fn_args, ctx);
+                    // A function evaluating an expression reference may run nested
+                    // calls; point back at the enclosing call once this one is done.
+                    ctx.offset = caller_offset;
+                    result
+                }
                 None => {
                     let reason =
                         ErrorReason::Runtime(RuntimeError::UnknownFunction(name.to_owned()));
